@@ -117,6 +117,52 @@ def self_validate(mod, prop, tier, base: Ctx, budget_s: float):
     return res
 
 
+def _one_auto(job):
+    prop, name, path, src, base_bad = job
+    mod = load_rules(prop)
+    try:
+        v = run_variant(mod, prop, "quick", path, src)
+        ref = [f.key for f in v.findings if f.verdict == REFUTED and f.key not in base_bad]
+        unk = [f.key for f in v.findings if f.verdict == UNKNOWN and f.key not in base_bad]
+        if ref:
+            return (name, "refuted", ref[0])
+        if unk:
+            return (name, "undecided", unk[0])
+        return (name, "silent", "")
+    except AnalysisError as e:
+        return (name, "undecided", str(e)[:120])
+    except Exception as e:
+        return (name, "undecided", f"internal: {type(e).__name__}: {e}"[:120])
+
+
+def auto_mutants(mod, prop, base: Ctx, budget_s: float):
+    """Thorough tier: generic one-point AST edits of the anchored functions."""
+    import concurrent.futures as cf
+    import multiprocessing as mp
+
+    from .automut import generate
+
+    anchors = getattr(mod, "ANCHORS", [])
+    base_bad = {f.key for f in base.findings if f.verdict in (REFUTED, UNKNOWN)}
+    jobs = [(prop, name, path, src, base_bad) for name, path, src in generate(base.repo, anchors)]
+    res = {"generated": len(jobs), "refuted": 0, "undecided": 0, "silent": 0, "silent_list": [], "not_run": 0}
+    if not jobs:
+        return res
+    with cf.ProcessPoolExecutor(max_workers=min(16, os.cpu_count() or 4), mp_context=mp.get_context("fork")) as ex:
+        futs = [ex.submit(_one_auto, j) for j in jobs]
+        done, pending = cf.wait(futs, timeout=budget_s)
+        for f in futs:
+            if f in done:
+                name, state, key = f.result()
+                res[state] += 1
+                if state == "silent":
+                    res["silent_list"].append(name)
+            else:
+                f.cancel()
+                res["not_run"] += 1
+    return res
+
+
 def cmd_check(prop: str, tier: str, no_controls: bool = False) -> int:
     t0 = time.time()
     try:
@@ -132,6 +178,11 @@ def cmd_check(prop: str, tier: str, no_controls: bool = False) -> int:
             budget = 30.0 if tier == "quick" else 600.0
             controls = self_validate(mod, prop, tier, ctx, budget)
         meta = dict(getattr(mod, "META", {}))
+        if tier == "thorough" and not no_controls:
+            am = auto_mutants(mod, prop, ctx, 900.0)
+            ctx.analysed["auto_mutants"] = {k: (v if k != "silent_list" else v[:200]) for k, v in am.items()}
+            print(f"   auto-mutants of the anchored functions: {am['generated']} generated, {am['refuted']} refuted, "
+                  f"{am['undecided']} undecided, {am['silent']} silent (equivalent / outside the property / rule gap; listed in evidence)")
         meta["cmd"] = f"./sa check {prop} --tier {tier}"
         meta.setdefault("trusted_base", [
             "CPython ast parser", "aspire_sa engine (model, evaluator/GVN, CFG, rule tables)",
